@@ -171,6 +171,24 @@ def interp_cases(run):
             run.violation("C20:interpolate:not-exact-at-nodes", str(ex), {})
         if not np.array_equal(val, v0):
             run.violation("C20:interpolate:argument-modified", str(ex), {})
+    # the memory layout of the target arrays is not part of their meaning:
+    # Fortran-ordered, transposed and strided targets give the values of
+    # the same points at the same positions
+    val = 0.3 + 0.7 * GX - 0.2 * GY * GZ + 0.1 * GX * GY * GZ
+    want = 0.3 + 0.7 * tx - 0.2 * ty * tz + 0.1 * tx * ty * tz
+    variants = {
+        'fortran': tuple(np.asfortranarray(a) for a in (tx, ty, tz)),
+        'transposed-view': tuple(np.ascontiguousarray(a.T).T
+                                 for a in (tx, ty, tz)),
+        'strided': tuple(np.repeat(a, 2, axis=1)[:, ::2]
+                         for a in (tx, ty, tz))}
+    for name, tgt in variants.items():
+        out = numerical.interpolate(val, (gx, gy, gz), tgt, method='linear')
+        n += 1
+        if out.shape != tx.shape or not np.abs(out - want).max() <= 1e-12:
+            run.violation(f"C20:interpolate:target-layout:{name}",
+                          f"max error {np.abs(out - want).max():.2e} for "
+                          f"{name} target arrays", {})
     val = np.sin(GX) * GY + GZ
     for axis, side in itertools.product(range(3), (-1, 1)):
         pt = [np.array([0.3]), np.array([0.7]), np.array([-2.0])]
